@@ -45,6 +45,12 @@ class AEnv:
     def immediate(self, op):
         raise MachineryError("immediate answer requested in the asyncio world")
 
+    async def yield_once(self):
+        await asyncio.sleep(0)
+
+    async def sleep(self, seconds):
+        await asyncio.sleep(seconds)
+
     async def pend(self, op):
         w = self.world
         fut = w.loop.create_future()
@@ -84,16 +90,27 @@ def _install_shield_counter():
         return
     orig_enter, orig_exit = sy.AsyncShieldCancellation.__enter__, sy.AsyncShieldCancellation.__exit__
 
+    def _name():
+        try:
+            t = asyncio.current_task()
+            return t.get_name() if t is not None else None
+        except RuntimeError:
+            try:
+                import trio
+                return trio.lowlevel.current_task().name
+            except Exception:
+                return None
+
     def enter(self):
-        t = asyncio.current_task()
-        if t is not None:
-            SHIELD_DEPTH[t.get_name()] = SHIELD_DEPTH.get(t.get_name(), 0) + 1
+        n = _name()
+        if n is not None:
+            SHIELD_DEPTH[n] = SHIELD_DEPTH.get(n, 0) + 1
         return orig_enter(self)
 
     def exit_(self, *a):
-        t = asyncio.current_task()
-        if t is not None:
-            SHIELD_DEPTH[t.get_name()] = SHIELD_DEPTH.get(t.get_name(), 0) - 1
+        n = _name()
+        if n is not None:
+            SHIELD_DEPTH[n] = SHIELD_DEPTH.get(n, 0) - 1
         return orig_exit(self, *a)
 
     sy.AsyncShieldCancellation.__enter__ = enter
